@@ -25,7 +25,14 @@ func runC12(c *core.Ctx) {
 	const pkg = "pdf/font/charcode"
 	defer ruleDecodeConsumption(c)
 	defer ruleNoAmbiguousKeys(c)
-	defer ruleNoStaleElementPointers(c)
+	defer ruleNoStaleElementPointers(c, "C12-R9", "pdf/font/charcode")
+	defer ruleMethodsPure(c, "C12-R12", "pdf/font/charcode", 3, func(fn *core.Func, recv types.Type) bool {
+		return core.IsNamed(recv, "pdf/font/charcode", "Codec") // a Codec is immutable after NewCodec and shared between fonts and goroutines
+	})
+	defer func() {
+		rulePublishedNotRecycled(c, "C12-R10", "pdf/font/charcode")
+		ruleNoForeignAppend(c, "C12-R11", 0, "pdf/font/charcode")
+	}()
 	c.Check("C12-R1", pkg+".newTree/desc", "every child stored in the tree is recorded in the descriptor (its own descriptor and its upper bound) before the next child is considered", func(o *core.Ob) {
 		fn := c.Prog.Func(pkg, "newTree")
 		g := fn.Graph()
@@ -594,9 +601,8 @@ func ruleNoAmbiguousKeys(c *core.Ctx) {
 // a prefix of a code is accepted as a complete code.  For every such pointer
 // to an element of a struct field in the package: no call that can append to
 // the same field lies between taking the pointer and a later use of it.
-func ruleNoStaleElementPointers(c *core.Ctx) {
-	const pk = "pdf/font/charcode"
-	c.Check("C12-R9", pk+"/element-pointers", "no pointer to a slice element is used after a call that may append to that slice", func(o *core.Ob) {
+func ruleNoStaleElementPointers(c *core.Ctx, rule, pk string) {
+	c.Check(rule, pk+"/element-pointers", "no pointer to a slice element is used after a call that may append to that slice", func(o *core.Ob) {
 		pkg := c.Prog.Pkg(pk)
 		// which functions append to which slice fields (directly)
 		appends := map[*types.Func]map[*types.Var]bool{}
